@@ -9,6 +9,7 @@ CONSTANTS
   P4 = 1
   MaxH = 1
   MaxR = 1
+  RestartResumes = FALSE
   MaxRestarts = 0
   ByzKinds = {"prop", "pv", "pc"}
   ByzNil = TRUE
